@@ -176,7 +176,7 @@ def replay(doc):
             st = m2.project_structure(m2.load_corpus(st["name"]), st["name"])
         rec = m2.finish(st, m2.record((st, base)))
         res = lib.trace_validate("Trace_Mapping2D", "Trace_Mapping2D.cfg", [rec], sc, extra_doc={"structs": [st]}, chunks=1)
-        rep.add_trace(res, {rec["id"]: rec}, "C06")
+        rep.add_trace(res, _WithStruct([rec], [base], [st]), "C06")
         rep.cov["samples"] = [rec]
         rep.cov["distinct_nontrivial"] = 1
     return rep.finish()
